@@ -74,6 +74,12 @@ PROPS = {
                 bounded_note=[{"what": "CallKey.from_call vs functools._make_key induce the same partition of call patterns", "bound": "values {1, 1.0, True, '1', (1, 2), None, 2, 'a'} in up to 2 positional and 2 keyword arguments, both keyword orders, typed in {False, True}: native enumeration (bounded stand-in, not counted as discharged)"},
                               {"what": "bound methods / classmethods / staticmethods", "bound": "LRUAsyncBoundCallable only prepends __self__; covered by the native bounded run in contracts/validate_refs.py, not by obligations"}],
                 explanation="data structure against abstract view: every operation (awaited call incl. failing calls, cache_info, cache_parameters, cache_clear, cache_discard) of Uncached/Memoized/CachedLRUAsyncCallable and of the lru_cache front end refines the abstract LRU view from an arbitrary state of each shape (consumer loop = cut point, so histories are unbounded; maxsize symbolic; three symbolic call patterns)"),
+    "C11": dict(level="proof", canaries=[(CANARY, "canary:max-last-of-ties")],
+                trusted_base=TB_COMMON + ["cooperative scheduling: tasks interleave only at the await of the wrapped function (the only suspension point in __call__; C17 effect typing)",
+                                          "rely = guarantee = the shared invariant I: at the suspension point the shared state (store, hits, misses, ghost counters) is replaced by ANY state satisfying I; the store is havocked to 0..2 entries of fresh patterns (the code after the await only distinguishes `key in cache` and `len >= maxsize`)",
+                                          "dict / OrderedDict contract of pyvc/odmodel.py; CallKey.from_call replaced by its contract as in C10"],
+                bounded_note=[{"what": "store size visible to the resumed segment", "bound": "interference leaves 0, 1 or 2 entries (symbolic patterns, symbolic maxsize >= 1 or None)"}],
+                explanation="Owicki-Gries / rely-guarantee at the suspension point of __call__: the invariant I = {hits+misses = calls started, misses = invocations of the wrapped function, entries <= maxsize, every stored value was produced for its pattern, patterns distinct} is proved at the suspension (end of segment S1), after the resumed segment for every outcome (value, exception, cancellation) from an arbitrary I-state, and after cache_clear/cache_discard/cache_info; every returned value was produced for an equal pattern. No schedule is enumerated: any interleaving is a sequence of such segments"),
     "C13": dict(level="proof", canaries=[(CANARY, "canary:filter-yields-before-test")],
                 trusted_base=TB_COMMON + ["reference = contextlib._AsyncGeneratorContextManager of the installed CPython, extracted mechanically on demand (tools/extract_refs.py, drift-checked on every run) and rendered synchronous by fixed textual rules",
                                           "async-generator protocol A3: the generator's answers to anext/athrow/aclose range over {yield, stop, raise the same object, raise a new exception (same or other class), RuntimeError caused by the thrown exception}; a Stop(Async)Iteration never leaves a generator as such (PEP 479/525)"],
